@@ -40,6 +40,7 @@ type Scenario struct {
 	Files    []ScFile `json:"files"`
 	Dirs     []string `json:"dirs"`
 	Symlinks []ScLink `json:"symlinks"`
+	Hardlinks []ScLink `json:"hardlinks,omitempty"` // further names (path) of a regular file of Files (target, relative to the root)
 	Args     []string `json:"args"`  // {ROOT} is replaced by the scenario root
 	Stdin    string   `json:"stdin"` //
 	Cwd      string   `json:"cwd"`   // relative to root
@@ -272,6 +273,15 @@ func runScenario(bin, workdir string, sc *Scenario) (*RunRec, error) {
 			return nil, err
 		}
 		if err := os.Symlink(l.Target, p); err != nil {
+			return nil, err
+		}
+	}
+	for _, l := range sc.Hardlinks {
+		p := filepath.Join(tree, l.Path)
+		if err := os.MkdirAll(filepath.Dir(p), 0o755); err != nil {
+			return nil, err
+		}
+		if err := os.Link(filepath.Join(tree, l.Target), p); err != nil {
 			return nil, err
 		}
 	}
